@@ -362,6 +362,38 @@ theorem nuts_transition_never_bad {F V : Type} [Add F] [Sub F] [Mul F] [Div F] [
   · exact Or.inl h
   · exact Or.inr ⟨z, hz, MiniMcmcVerif.NUTS.nuts_admissible_not_bad dot _ z hadm, htr⟩
 
+/-- every point at least one leapfrog step along the trajectory carries the log-density of its own position -/
+theorem iterate_logp {F V : Type} [Add F] [Sub F] [Mul F] [Div F] [NatCast F] [Add V] [SMul F V]
+    (target : V → F × V) (e : F) (k : Nat) (z0 : Pt F V) :
+    ((leapfrog target e)^[k + 1] z0).logp = (target ((leapfrog target e)^[k + 1] z0).pos).1 := by
+  rw [Function.iterate_succ_apply']
+  rfl
+
+/-- **"nor to a position with non-finite coordinates"**: if the target assigns a NaN / −inf density to every position
+    outside a set `Good` (e.g. the positions with finite coordinates inside the support), a transition that terminates ends at
+    the start position or at a position in `Good`. -/
+theorem nuts_transition_good_position {F V : Type} [Add F] [Sub F] [Mul F] [Div F] [Neg F] [LT F] [LE F] [DecidableLT F]
+    [DecidableLE F] [NatCast F] [HasExp F] [L : IEEELaws F] [Add V] [Sub V] [SMul F V]
+    (U : F → Prop) (hU : UnifLaws U) (target : V → F × V) (dot : V → V → F) (eps : F) (pos mom0 : V) (exp1 : F)
+    (dirs sel acc : List F) (fuel : Nat) (st' : Loop F V) (hsel : ∀ u ∈ sel, U u) (hacc : ∀ u ∈ acc, U u)
+    (Good : V → Prop) (hgood : ∀ x : V, ¬ Good x → L.Bad (target x).1)
+    (h : transition target dot eps pos mom0 exp1 dirs sel acc fuel = some st') :
+    st'.pos = pos ∨ Good st'.pos := by
+  rcases nuts_transition_never_bad U hU target dot eps pos mom0 exp1 dirs sel acc fuel st' hsel hacc h with h | ⟨z, hz, hnb, k, hk | hk⟩
+  · exact Or.inl h
+  · right
+    by_contra hng
+    apply hnb
+    rw [hk, iterate_logp]
+    rw [← hz, hk] at hng
+    exact hgood _ hng
+  · right
+    by_contra hng
+    apply hnb
+    rw [hk, iterate_logp]
+    rw [← hz, hk] at hng
+    exact hgood _ hng
+
 /-! ### the uniform laws hold on every ordered field … -/
 section field
 variable {K : Type} [Field K] [LinearOrder K] [IsStrictOrderedRing K]
